@@ -62,12 +62,19 @@ May(cfg, a) ==
 \* reference reachability: from the program entry along Must edges and calls
 CallTarget(cfg, a) ==
   LET x == cfg.nodes[a] IN IF Kind(x.node) = "call" THEN {Target(cfg, x.node.lab)} \ {0} ELSE {}
+\* installation of an interrupt handler: `la r, L` immediately followed by `csrrw x0, utvec, r`
+InstallsHandler(cfg, a) ==
+  /\ a < NN(cfg)
+  /\ cfg.nodes[a].node.k = "LoadAddr"
+  /\ LET c == cfg.nodes[a + 1].node IN c.k = "Csr" /\ c.op = "csrrw" /\ c.csr = 5 /\ c.rs1 = cfg.nodes[a].node.rd
+HandlerLabels(cfg) == { cfg.nodes[a].node.lab : a \in { i \in 1..NN(cfg) : InstallsHandler(cfg, i) } }
+HandlerTarget(cfg, a) == IF InstallsHandler(cfg, a) THEN {Target(cfg, cfg.nodes[a].node.lab)} \ {0} ELSE {}
 RECURSIVE Closure(_, _, _)
 Closure(step(_), frontier, seen) ==
   IF frontier = {} THEN seen
   ELSE LET new == (UNION { step(a) : a \in frontier }) \ seen IN Closure(step, new, seen \cup new)
 RefReach(cfg) ==
-  LET step(a) == (Must(cfg, a) \ {0}) \cup CallTarget(cfg, a) IN Closure(step, {1}, {1})
+  LET step(a) == (Must(cfg, a) \ {0}) \cup CallTarget(cfg, a) \cup HandlerTarget(cfg, a) IN Closure(step, {1}, {1})
 \* reachability along the observed edges
 ObsReach(cfg, from) ==
   LET step(a) == SeqSet(cfg.nodes[a].nexts) IN Closure(step, {from}, {from})
